@@ -77,3 +77,6 @@ Section Manager.
                       (signed_value mac (c_name cfg) (encode_ticket id sec) created_s) (c_expire_ns cfg)]
          else None).
 End Manager.
+
+(* the write Manager.Save performs: key and time-to-live handed to the store *)
+Definition manager_save_ttl (cfg : ccfg) : Z := c_expire_ns cfg.
